@@ -102,15 +102,20 @@ fn map_node(n: &xml_dom::XmlNode, loc: String, map: &mut HashMap<usize, String>,
 pub fn subject(text: &str, merged: bool) -> Result<Subject, String> {
     let p = crate::obs::parse_dom(text, merged)?;
     if p.rest != 0 { return Err("rest".into()); }
+    Ok(subject_of(p.doc))
+}
+
+/// locator map of a live document (in whatever view its context selects)
+pub fn subject_of(doc: xml_dom::XmlDocument) -> Subject {
     let mut map = HashMap::new();
-    map.insert(p.doc.as_node().id(), "/".to_string());
+    map.insert(doc.as_node().id(), "/".to_string());
     let mut idx = 0; let mut budget = 100_000usize;
-    for c in p.doc.child_nodes().iter() {
+    for c in doc.child_nodes().iter() {
         if let xml_dom::XmlNode::DocumentType(_) = c { map.insert(c.id(), "!doctype".into()); continue; }
         map_node(&c, format!("/{}", idx), &mut map, &mut budget);
         idx += 1;
     }
-    Ok(Subject { dom: p.doc, idmap: map })
+    Subject { dom: doc, idmap: map }
 }
 
 pub fn locator_of(s: &Subject, n: &xml_dom::XmlNode) -> String {
